@@ -11,6 +11,7 @@ var All = []*ev.Property{
 	C04,
 	C05,
 	C06,
+	C07,
 	C08,
 	C09,
 	C10,
@@ -20,6 +21,7 @@ var All = []*ev.Property{
 	C14,
 	C15,
 	C16,
+	C17,
 	C19,
 	C20,
 }
